@@ -125,6 +125,51 @@ def run(rep, tier, seed, replay=None):
     for k, v in enumerate(foreign[: (10 if tier == "quick" else 200)]):
         cases.append(v.line)
         meta[v.id] = (v, "foreign-on", None, None, None, None, True)
+    # … among them always servers reporting app id 0 (no id is ever "0 by default"), for engines with and without a dedicated id
+    def force_appid_zero(d):
+        if d is None or d[:5] != b"\xff\xff\xff\xffI":
+            return None
+        i = 6
+        for _ in range(4):
+            j = d.find(b"\0", i)
+            if j < 0:
+                return None
+            i = j + 1
+        if i + 9 > len(d) or d[i:i + 2] == (2400).to_bytes(2, "little"):
+            return None
+        out = bytearray(d)
+        out[i:i + 2] = b"\0\0"
+        k = i + 2 + 7
+        j = d.find(b"\0", k)
+        if j < 0:
+            return None
+        if j + 1 < len(d) and d[j + 1] & 0x01 and len(d) >= j + 2 + 8:
+            out[-8:-5] = b"\0\0\0"
+        return bytes(out)
+
+    zero_made = 0
+    for v in foreign + [b for _, b in chosen]:
+        eng = v.line.split(" ")[3].split(":")
+        if eng[0] != "S" or len(eng) < 2 or eng[1] in ("-", "0", "2400"):
+            continue
+        c = v.case()
+        if not c.script or c.script[0] == "X":
+            continue
+        idx = next((n for n, d in enumerate(c.script[0]) if d is not None and d[:5] == b"\xff\xff\xff\xffI"), None)
+        if idx is None:
+            continue
+        z = force_appid_zero(c.script[0][idx])
+        if z is None:
+            continue
+        c.script[0][idx] = z
+        c.args[netprops.FAMILIES["valve"]["gather"]] = c.args[netprops.FAMILIES["valve"]["gather"]][:2] + "T"
+        cid = f"{v.id}z0"
+        cases.append(c.line(cid))
+        meta[cid] = (v, "foreign-on", None, None, None, None, True)
+        zero_made += 1
+        if zero_made >= (6 if tier == "quick" else 60):
+            break
+    rep.count("appid-zero-servers", zero_made)
 
     # ---- the app-id decision through the definition-driven generic query (games::query): the check that applies is the
     # caller's when the extra settings carry one — whatever else they carry or leave out —, the protocol's default (on) when
